@@ -10,7 +10,7 @@ use serde_json::{json, Value};
 pub static ENGINE: Engine = Engine {
     prop: "C12",
     level: "exploration",
-    rule: "every sentence of the grammar with <= 3 (4) syntax nodes over the full alphabet plus the every-node-kind-in-every-position family and every sentence <= 5 (6) nodes with an undefined {reference} leaf over a binder alphabet (parsed, evaluated, printed lookups); -b N for every N in 0..80; every byte string <= 2 (3) bytes over all 256 byte values; every sequence <= 4 (5) of lexemes over the 33 token kinds plus extreme lexemes (numbers around 2^63/2^64, 40 digits, non-ASCII digits, unbalanced quote/brace, NUL); flat inputs of every length 2^j, 2^j+-1 up to 64 KiB; every nesting depth 1..200 of 7 nesting constructs; each through tokenize, ParsedFormula::new and (when the reference says all fixed points converge) eval under catch_unwind. CLI: a formula core x every combination of {-t,-v,-m,-r,-d,-p} x {-c none/t/f} x {-f none/t/f} x {no ordering, reversed, superset, formula-as-ordering}, plus -b 0 / -b 2 x {-t,-v,-m,-r}; and/or chains over 8..257 variables and names of 24..1000 characters with the printing options; exit 101 / signal = violation. distinct = distinct (outcome class, token-list) pairs in-process + distinct (exit status, stdout) pairs for the CLI",
+    rule: "every sentence of the grammar with <= 3 (4) syntax nodes over the full alphabet plus the every-node-kind-in-every-position family every sentence <= 5 nodes over a nested-binder alphabet (three fixed-point binder names) and every sentence <= 5 (6) nodes with an undefined {reference} leaf over a binder alphabet (parsed, evaluated, printed lookups); -b N for every N in 0..80; every byte string <= 2 (3) bytes over all 256 byte values; every sequence <= 4 (5) of lexemes over the 33 token kinds plus extreme lexemes (numbers around 2^63/2^64, 40 digits, non-ASCII digits, unbalanced quote/brace, NUL); flat inputs of every length 2^j, 2^j+-1 up to 64 KiB; every nesting depth 1..200 of 7 nesting constructs; each through tokenize, ParsedFormula::new and (when the reference says all fixed points converge) eval under catch_unwind. CLI: a formula core x every combination of {-t,-v,-m,-r,-d,-p} x {-c none/t/f} x {-f none/t/f} x {no ordering, reversed, superset, formula-as-ordering}, plus -b 0 / -b 2 x {-t,-v,-m,-r}; and/or chains over 8..257 variables and names of 24..1000 characters with the printing options; exit 101 / signal = violation. distinct = distinct (outcome class, token-list) pairs in-process + distinct (exit status, stdout) pairs for the CLI",
     assumptions: &[
         "resource exhaustion on inputs whose evaluation is exponential by design is outside the claim",
         "fixed points the reference model finds divergent are not evaluated; exhaustion of the 20000-iteration fuel is reported by C01/C06, not here",
@@ -546,6 +546,21 @@ fn sentence_sweep(ctx: &mut Ctx) {
         if ctx.mine(idx) {
             check_bytes(ctx, refl::pp(&a, refl::MINIMAL).as_bytes(), true);
             ctx.count("grammar_sentences", 1);
+        }
+    }
+    // nested binders: three fixed-point binder names, quantifiers, negation, & and |
+    let mut g = crate::enumerate::Gen::new(crate::props::c01::binder_core());
+    for n in 1..=5 {
+        let mut todo: Vec<Ast> = vec![];
+        g.stream(n, &mut |a| {
+            idx += 1;
+            if ctx.mine(idx) {
+                todo.push(a);
+            }
+        });
+        for a in todo {
+            check_bytes(ctx, refl::pp(&a, refl::MINIMAL).as_bytes(), true);
+            ctx.count("binder_sentences", 1);
         }
     }
     // sentences with `{reference}` leaves (never defined on this path) in every position,
